@@ -258,6 +258,7 @@ def abortOne (s : State) (i : ObjId) : State :=
     if s.added.has k then
       let s := { s with added := s.added.del k, cache := s.cache.del k }
       disown s i
+    else if s.creating.has k then s      -- a new object that is stored already: disowned later, keeps its state
     else invalidate s k
 
 /-- `_abort` -/
@@ -280,8 +281,9 @@ def tpcCleanup (s : State) : State :=
 def invalidateOwnCreating (s : State) : State :=
   { invalidateCreating s s.creating.keys with creating := [] }
 
-/-- `self._cache.invalidate(self._modified)` -/
-def invalidateModified (s : State) : State := invalidateAll s s.modified
+/-- `self._cache.invalidate([oid for oid in self._modified if oid not in self._creating])` -/
+def invalidateModified (s : State) : State :=
+  invalidateAll s (s.modified.filter fun k => !s.creating.has k)
 
 /-- `self._storage = self._normal_storage; self._savepoint_storage = None` -/
 def dropTmp (s : State) : State := { s with sp := none }
